@@ -138,6 +138,37 @@ func missedRendezvous(blocking bool) func() vrt.Run {
 	}
 }
 
+// condReaders: two listeners wait on a sync.Cond whose Locker is the read side of an RWMutex; the
+// setter takes the write side.  With the flag they always finish; a listener that waits without
+// looking at the flag misses a broadcast that came first.
+func condReaders(flag bool) func() vrt.Run {
+	return func() vrt.Run {
+		var rw sync.RWMutex
+		c := sync.NewCond(rw.RLocker())
+		ready := false
+		listen := func() {
+			vrt.RWRLock(&rw)
+			if flag {
+				for !ready {
+					vrt.CondWait(c)
+				}
+			} else {
+				vrt.CondWait(c)
+			}
+			vrt.RWRUnlock(&rw)
+		}
+		return vrt.Run{Body: func() {
+			a, b := vrt.Go(listen), vrt.Go(listen)
+			vrt.RWLock(&rw)
+			ready = true
+			vrt.RWUnlock(&rw)
+			vrt.CondBroadcast(c)
+			vrt.Join(a)
+			vrt.Join(b)
+		}, Verdict: verdict(func() string { return "" })}
+	}
+}
+
 func racy(synced bool) func() vrt.Run {
 	return func() vrt.Run {
 		var x int
@@ -235,6 +266,8 @@ func SelfCheck() (ok bool, report []string) {
 		{"racy", racy(false), []string{"ok+race:2"}, "ok+race"},
 		{"racy-locked", racy(true), []string{"ok:2"}, ""},
 		{"pipeline", func() vrt.Run { return pipeline() }, []string{"ok:[0 1 2]"}, ""},
+		{"cond-rlocker", condReaders(true), []string{"ok:"}, ""},
+		{"cond-rlocker-lost-wakeup", condReaders(false), []string{"deadlock:", "ok:"}, "deadlock"},
 	}
 	ok = true
 	for _, t := range toys {
